@@ -304,6 +304,7 @@ func main() {
 	caseMapSites(pkgs)
 	errorTemplates(pkgs)
 	receiverMutators(pkgs)
+	cfgSkeletons(pkgs)
 	if p := pkgs["cors"]; p != nil {
 		icfgWrites(p)
 	}
